@@ -54,7 +54,7 @@ def corr_chunk(args):
             lines.append(tl.sexp(("ground", h, tuple(rules))))
     outs = MODEL.batch(lines)
     for i, rules in enumerate(cases):
-        text = tl.render_prog(rules)
+        text = tl.render_prog(rules, random.Random(seed * 7 + i))
         base = i * (H + 2)
         # L1-lite
         try:
@@ -99,7 +99,7 @@ def run_corr(ctx, cases, H):
 
 def search_chunk(args):
     seed, cases, H = args
-    return oracles.compare_with_spec(cases, H)
+    return oracles.compare_with_spec(cases, H, style_seed=seed)
 
 def run_search(ctx, cases, H):
     work = [(ctx.seed + j, c, H) for j, c in enumerate(par.chunks(cases, ctx.jobs * 2))]
